@@ -41,6 +41,8 @@ ASSUMPTIONS = [
     'rays whose crossing of the local z=0 plane lies outside the domain of the sag (the square root is imaginary '
     'there) are outside the scope of Spencer & Murty\'s iteration and excluded by the reference (counted); '
     'total internal reflection is excluded by the reference radicand (counted)',
+    'rays that meet the surface at grazing incidence (|cos i| < 0.02 at the candidate intersection nearest the local z=0 plane, a near-double root whose '
+    'position is ill-conditioned) are excluded by the reference (counted as outcome grazing)',
 ]
 
 EPS = float(np.finfo(float).eps)
@@ -323,6 +325,17 @@ def judge_hop(R, g, n0, Pin, Sin, Pout, Sout, live, hop, tally):
     tally['miss'] += int((live & ~hit).sum())
     tally['start-outside'] += int((live & hit & ~dom).sum())
     j = live & hit & dom
+    # grazing incidence (|cos i| < 0.02, i > 88.85 deg) at the candidate intersection nearest the z=0 plane crossing (the one
+    # the iteration is aimed at): a near-double root, its position is ill-conditioned (error ~ ulp(z) / cos i) -- outside
+    # the scope, counted
+    with np.errstate(all='ignore'):
+        sn = np.where(np.isfinite(roots), roots, np.inf)
+        sn = np.take_along_axis(sn, np.argmin(np.abs(sn - s0[:, None]), axis=1)[:, None], axis=1)[:, 0]
+        qq = p + np.where(np.isfinite(sn), sn, 0.0)[:, None] * d
+        cg = np.abs(np.einsum('ij,ij->i', d, g.normal(qq[:, 0], qq[:, 1])))
+        graz = j & ~(cg >= 0.02)
+    tally['grazing'] += int((j & graz).sum())
+    j = j & ~graz
     if g.isq:
         # documented singularity of surface_normal_from_cylindrical_derivatives at r = 0 (user-side FFp)
         with np.errstate(invalid='ignore'):
@@ -556,7 +569,7 @@ def report_tally(R, tally):
 
 def new_tally():
     return {'hit': 0, 'miss': 0, 'tir': 0, 'start-outside': 0, 'q2d-origin-excluded': 0, 'back-refraction': 0,
-            'path<-128': 0, 'path>+128': 0}
+            'path<-128': 0, 'path>+128': 0, 'grazing': 0}
 
 
 # ---------------------------------------------------------------------------------------------
